@@ -32,7 +32,7 @@ def generate_cases(run, tier, big=True):
         sim = ('num=50', 3, ['I', 'E'])
     else:
         bfs = [(2, False, ['E', 'I', 'A']), (1, True, ['E', 'A'], True)]
-        sim = ('num=3000', 6, ['E', 'I', 'A'])
+        sim = ('num=250', 6, ['E', 'I', 'A'])      # per TLC worker (4 workers): about one behaviour per second and worker
     cases = []
     big_ok = big
     for n, b in enumerate(bfs):
@@ -42,7 +42,8 @@ def generate_cases(run, tier, big=True):
                                    workers=8, what='TypeGen BFS depth<=%d rich=%s tagdefs=%s' % (d, rich, tds))
         cases += pl.dedup_cases(out, 'g%d' % n)
     if sim:
-        out, res = pl.tlc_generate(run, 'TypeGen', typegen_cfg(sim[1], True, sim[2]), 'gensim.ndjson', workers=1,
+        out, res = pl.tlc_generate(run, 'TypeGen', typegen_cfg(sim[1], True, sim[2]), 'gensim.ndjson',
+                                   workers=1 if tier == 'quick' else 4, timeout=3000,
                                    simulate=sim[0], depth=sim[1] + 1,
                                    what='TypeGen simulate %s depth %d' % (sim[0], sim[1]))
         cases += pl.dedup_cases(out, 's')
